@@ -79,6 +79,14 @@ def run_pair(J, rule_path, macro_paths, inp, binary, fresh, want_regex=False, st
             obs["regex"] = mop.regex_rule
         stage = "match"
         obs["stream"] = mop.perform_matching()
+        if fresh == "batch" and not stream_only:
+            # all eight operations are constructed first and only then run (the modes must not leak between them)
+            stage = "construct"
+            mops = [(mode, J["MasterOfPuppets"](_mk_config(J, rule_path, macro_paths, inp, binary, mode))) for mode in MODES]
+            stage = "match"
+            for mode, m in mops:
+                obs["res"]["".join(mode)] = m.perform_matching()
+            return obs
         for mode in ([] if stream_only else MODES):
             if fresh:
                 stage = "construct"
@@ -150,9 +158,16 @@ def _isolated(fn, *args):
 
 
 def run_history(job, ops, listing_paths, tmp):
-    """Executed in a forked child: a sequence of complete operations in ONE process."""
+    """Executed in a forked child: a sequence of complete operations in ONE process.
+
+    Files with the same content keep the same path within the process (as a user's files would): a macro file is
+    written once per distinct content; an input declared with `copy_from` is copied onto one fixed per-process path
+    before the operation, so that successive operations can see DIFFERENT content at the SAME path."""
+    import hashlib
+    import shutil
     J = _imports()
     out = []
+    written = []
     for n, (ri, li) in enumerate(ops):
         rule = job["rules"][ri]
         rule_path = os.path.join(tmp, f"h{os.getpid()}.{n}.yaml")
@@ -161,15 +176,25 @@ def run_history(job, ops, listing_paths, tmp):
         macro_paths = list(rule.get("macro_paths") or [])
         own = len(macro_paths)
         for k, text in enumerate(rule.get("macros") or []):
-            mp = os.path.join(tmp, f"h{os.getpid()}.{n}.m{k}.yaml")
-            with open(mp, "w", encoding="utf-8") as f:
-                f.write(text)
+            mp = os.path.join(tmp, f"h{os.getpid()}.macros.{hashlib.sha1(text.encode()).hexdigest()[:16]}.yaml")
+            if not os.path.exists(mp):
+                with open(mp, "w", encoding="utf-8") as f:
+                    f.write(text)
+                written.append(mp)
             macro_paths.append(mp)
         inp, binary = listing_paths[li]
+        src = job["listings"][li].get("copy_from")
+        if src:
+            inp = os.path.join(tmp, f"h{os.getpid()}.current-input")
+            shutil.copyfile(src, inp)
+            if inp not in written:
+                written.append(inp)
         o = run_pair(J, rule_path, macro_paths, inp, binary, job.get("fresh", False))
         o["r"], o["l"] = ri, li
         out.append(o)
-        for p in [rule_path] + macro_paths[own:]:
+        os.unlink(rule_path)
+    for p in written:
+        if os.path.exists(p):
             os.unlink(p)
     return out
 
@@ -209,7 +234,9 @@ def main():
     tmp = tempfile.mkdtemp(prefix="w", dir=os.path.dirname(os.path.abspath(out_path)))
     listing_paths = []
     for n, l in enumerate(job["listings"]):
-        if "path" in l:
+        if "copy_from" in l:
+            listing_paths.append((l["copy_from"], bool(l.get("binary"))))
+        elif "path" in l:
             listing_paths.append((l["path"], bool(l.get("binary"))))
         else:
             p = os.path.join(tmp, f"l{n}.s")
